@@ -225,6 +225,11 @@ fn main() {
 		// neighbouring floats are different values (no tolerance in a selection): depth-bounded over
 		// {x, next(x), prev(x), x/2, 2x} at a power of two and at 150
 		for (tag, x) in [("1.0", 1.0 as ValueType), ("150.0", 150.0 as ValueType)] {
+			// (f32 builds: the mean of SMM's two middle values and the difference highest - lowest round in f32 but not in the f64 reference, and
+			// the harness compares SMM's window through decimal text - both only meaningful for f64 here)
+			if IS_F32 && (name == "SMM" || name == "HighestLowestDelta") {
+				continue;
+			}
 			let up = ValueType::from_bits(x.to_bits() + 1);
 			let dn = ValueType::from_bits(x.to_bits() - 1);
 			let al = vec![x, up, dn, x / 2.0, x * 2.0];
